@@ -18,7 +18,7 @@ Proof. vm_compute. reflexivity. Qed.
 
 (* the generic lemma behind the id checks, for the record *)
 Theorem C20_guard_sound : forall gs d nl nr x,
-  covers gs d = true -> 0 <= dim_val d nl nr < 9223372036854775808 ->
+  covers gs d = true -> 1 <= dim_val d nl nr < 9223372036854775808 ->
   -9223372036854775808 <= x < 9223372036854775808 ->
   accepted gs nl nr x = true -> 0 <= x < dim_val d nl nr.
 Proof. exact guard_sound. Qed.
